@@ -27,14 +27,6 @@ def main() -> int:
     assert outs <= set(R.trees(2, 2)) and len(outs) == 2 and st['executions'] == 2, (outs, R.trees(2, 2))
     assert [len(R.trees(*s)) for s in ((2, 2), (2, 3), (3, 3))] == [4, 15, 192]
     assert [R.matrix_tree_count(*s) for s in ((2, 2), (2, 3), (3, 3), (3, 4))] == [4, 15, 192, 2415]
-    # every committed evidence file validates against the schema
-    schema_p = Path("/root/.vp/EVIDENCE.schema.json")
-    if schema_p.exists():
-        import jsonschema
-
-        schema = json.loads(schema_p.read_text())
-        for f in sorted((runner.VERIF / "evidence").glob("*.json")):
-            jsonschema.validate(json.loads(f.read_text()), schema)
     man = json.loads((runner.VERIF / "MANIFEST.json").read_text())
     props = [json.loads(l)["id"] for l in (runner.VERIF / "properties.jsonl").read_text().splitlines() if l.strip()]
     claimed = [c["property_id"] for c in man["checks"]]
